@@ -23,11 +23,46 @@ enum Act {
     Error,
 }
 
+/// Number of different error values a scripted consumer can answer with.
+const N_PAYLOADS: usize = 16;
+
+/// The consumer's own error value number `p`: a private type, every kind of error the library itself
+/// defines (parse states including the "complete" and "stop requested" ones, decode errors, loader errors),
+/// and standard-library errors (boxed string, zero-sized fmt::Error, io::Error).
+fn payload(p: usize, token: u64) -> Box<dyn error::Error + Send + Sync> {
+    use rspirv::binary::DecodeError as DE;
+    match p % N_PAYLOADS {
+        0 => Box::new(Token(token)),
+        1 => Box::new(ParseState::Complete),
+        2 => Box::new(ParseState::ConsumerStopRequested),
+        3 => Box::new(ParseState::ConsumerError(Box::new(Token(token)))),
+        4 => Box::new(ParseState::HeaderIncorrect),
+        5 => Box::new(ParseState::OpcodeUnknown(token as usize, 1, 0xfffe)),
+        6 => Box::new(ParseState::OperandError(DE::StreamExpected(token as usize))),
+        7 => Box::new(ParseState::HeaderIncomplete(DE::LimitReached(token as usize))),
+        8 => Box::new(DE::StreamExpected(token as usize)),
+        9 => Box::new(DE::LimitReached(token as usize)),
+        10 => Box::new(dr::Error::NestedFunction),
+        11 => Box::new(dr::Error::DetachedInstruction(None)),
+        12 => format!("consumer error {}", token).into(),
+        13 => Box::new(fmt::Error),
+        14 => Box::new(std::io::Error::new(std::io::ErrorKind::Other, format!("io {}", token))),
+        _ => Box::new(ParseState::EndiannessUnsupported),
+    }
+}
+
+fn thin(e: &(dyn error::Error + Send + Sync + 'static)) -> usize {
+    e as *const (dyn error::Error + Send + Sync) as *const u8 as usize
+}
+
 struct Scripted {
     /// callback position at which to answer `act` (0 = initialize, 1 = header, 2.. = instructions, last = finalize)
     at: usize,
     act: Act,
     token: u64,
+    payload: usize,
+    /// address and Debug rendering of the error value handed to the parser
+    sent: Option<(usize, String)>,
     log: Vec<String>,
     insts: Vec<dr::Instruction>,
     header: Option<dr::ModuleHeader>,
@@ -43,7 +78,11 @@ impl Scripted {
             match self.act {
                 Act::Continue => ParseAction::Continue,
                 Act::Stop => ParseAction::Stop,
-                Act::Error => ParseAction::Error(Box::new(Token(self.token))),
+                Act::Error => {
+                    let b = payload(self.payload, self.token);
+                    self.sent = Some((thin(&*b), format!("{:?}", b)));
+                    ParseAction::Error(b)
+                }
             }
         } else {
             ParseAction::Continue
@@ -82,8 +121,94 @@ fn gen_insts(rng: &mut Rng, n: usize) -> Vec<AInst> {
     v
 }
 
+/// Runs the parser over `w` once per (callback position in `ks`, action) with a scripted consumer answering
+/// there, and compares callback log, delivered content and result with the protocol. `full` is the callback
+/// log of an all-continue consumer; `k == full.len()` means "never answer anything but continue".
+#[allow(clippy::too_many_arguments)]
+fn check_protocol(r: &mut Report, rp: &dyn Fn() -> Json, w: &[u32], bytes: &[u8], via_words: bool, full: &[&str], has_parse_error: bool, want: Option<(&[Option<dr::Instruction>], &[AInst])>, want_header: Option<(u32, u32)>, ks: &[usize], idx: u64, ctx: &str, key: &str) {
+    let positions = full.len();
+    for &k in ks {
+        for act in [Act::Stop, Act::Error] {
+            if k == positions && act == Act::Error {
+                continue;
+            }
+            let token = idx * 1000 + k as u64;
+            // every kind of error value at every position over the run; position and kind vary independently
+            let pl = (idx as usize).wrapping_mul(7).wrapping_add(k * 5) % N_PAYLOADS;
+            let mut c = Scripted { at: if k == positions { usize::MAX } else { k }, act, token, payload: pl, sent: None, log: vec![], insts: vec![], header: None, calls: 0 };
+            let res = match catch(|| if via_words { rspirv::binary::parse_words(w, &mut c) } else { rspirv::binary::parse_bytes(bytes, &mut c) }) {
+                Ok(x) => x,
+                Err(p) => {
+                    r.violation(format!("C14:panic:{}", crate::util::panic_key(&p)), format!("parser panicked: {}", p.msg), rp());
+                    return;
+                }
+            };
+            let fail = |r: &mut Report, rule: &str, msg: String| {
+                r.violation(format!("C14:{}", rule), format!("{} [{}, {} entry point, answer {:?} (error value kind {}) at callback #{}]\nlog: {:?}", msg, ctx, if via_words { "parse_words" } else { "parse_bytes" }, act, pl, k, c.log), rp());
+            };
+            let want_log: Vec<&str> = if k == positions { full.to_vec() } else { full[..=k].to_vec() };
+            if c.log != want_log {
+                let rule = if c.log.len() > want_log.len() { "callback-after-end" } else if c.log.iter().filter(|s| *s == "finalize").count() > want_log.iter().filter(|s| **s == "finalize").count() { "finalize-unexpected" } else { "callback-order" };
+                fail(r, rule, format!("callback log differs from the protocol prefix {:?}", want_log));
+                return;
+            }
+            // delivered instructions equal the stream's, in order
+            if let Some((want_dr, insts)) = want {
+                for (i, got) in c.insts.iter().enumerate() {
+                    if want_dr[i].as_ref() != Some(got) {
+                        fail(r, "instruction-content", format!("instruction #{} delivered as {:?}, stream has {}", i + 1, got, insts[i].show()));
+                        return;
+                    }
+                }
+            }
+            if let Some(h) = want_header {
+                if c.header.as_ref().map(|h| (h.bound, h.version)) != if want_log.len() >= 2 { Some(h) } else { None } {
+                    fail(r, "header-content", format!("header delivered as {:?}", c.header));
+                    return;
+                }
+            }
+            // result
+            if k == positions {
+                match (&res, has_parse_error) {
+                    (Ok(()), false) => {}
+                    (Err(e), true) if !matches!(e, ParseState::ConsumerStopRequested | ParseState::ConsumerError(_) | ParseState::Complete) => {}
+                    (other, _) => {
+                        fail(r, "result-all-continue", format!("result {:?}", other.as_ref().err()));
+                        return;
+                    }
+                }
+            } else {
+                match (&res, act) {
+                    (Err(ParseState::ConsumerStopRequested), Act::Stop) => {}
+                    (Err(ParseState::ConsumerError(e)), Act::Error) => {
+                        // the consumer's own error value: the very same boxed object (address, unless zero-sized) with the same content
+                        let sent = c.sent.clone().unwrap_or((0, String::new()));
+                        if thin(&**e) == sent.0 {
+                            r.count("error_values_returned_in_the_same_box", 1);
+                        }
+                        let same_obj = format!("{:?}", e) == sent.1;
+                        let tok_ok = if pl == 0 { matches!(e.downcast_ref::<Token>(), Some(t) if t.0 == token) } else { true };
+                        if !same_obj || !tok_ok {
+                            fail(r, "consumer-error-identity", format!("ConsumerError carries {:?}, the consumer answered {} (token {})", e, sent.1, token));
+                            return;
+                        }
+                        r.seen("error_value_kinds_returned", format!("{:02}", pl));
+                    }
+                    (other, _) => {
+                        fail(r, "result-after-action", format!("result {:?}", other.as_ref().map_err(crate::rs::state_name)));
+                        return;
+                    }
+                }
+            }
+            let pos_class = if k == 0 { "initialize" } else if k == 1 { "header" } else if k == positions { "never" } else if full[k] == "finalize" { "finalize" } else { "inst" };
+            r.nontrivial(format!("{}:{}:{:?}:{}", key, pos_class, act, via_words));
+            r.evaluations += 1;
+        }
+    }
+}
+
 pub fn run(cfg: &Cfg, rep: &mut Report) {
-    rep.rule = "binaries with N in 0..12 generated instructions, well-formed or with a parse error injected at instruction j; for EVERY callback position k in 0..N+2 (initialize, header, N instructions, finalize) and every action (stop, error carrying a unique token) a scripted consumer answers at k: the callback log must be exactly the protocol prefix ending at k, delivered instructions must equal the stream's, the result must be ConsumerStopRequested / ConsumerError holding the consumer's own boxed token, finalize must be called iff the binary was parsed to the end without error; load_bytes must return a module only then. distinct_nontrivial = distinct (N, position class, action, error-injected) combinations".into();
+    rep.rule = "binaries with N in 0..12 generated instructions, well-formed or with a parse error injected at instruction j; for EVERY callback position k in 0..N+2 (initialize, header, N instructions, finalize) and every action (stop, error carrying a unique token) a scripted consumer answers at k: the callback log must be exactly the protocol prefix ending at k, delivered instructions must equal the stream's, the result must be ConsumerStopRequested / ConsumerError holding the consumer's own error value (16 kinds of error value: a private type, every kind of error the library defines itself incl. ParseState::Complete / ConsumerStopRequested, std errors; compared by content), finalize must be called iff the binary was parsed to the end without error; load_bytes must return a module only then. Injected parse errors: unknown opcode, zero word count, truncation, a module header where an instruction must start (concatenated modules). Stage `mutated`: modules of C03's generator under the 17 structured mutators, the first malformed instruction located by the reference parser (inputs it leaves unspecified are not judged), positions: all (<= 14 callbacks) or first/last/random. distinct_nontrivial = distinct (N, position class, action, error-injected) combinations".into();
     let n = cfg.n(8_000, 10_000_000);
     run_stage(cfg, rep, "protocol", n, |idx, rng, r| {
         let n_inst = (idx % 13) as usize;
@@ -95,8 +220,35 @@ pub fn run(cfg: &Cfg, rep: &mut Report) {
             w.extend(i.enc());
         }
         // optionally inject a parse error at instruction j (1-based): unknown opcode / zero word count / surplus word
-        let inject = n_inst > 0 && rng.chance(1, 2);
+        let embed = rng.chance(1, 8);
+        let inject = !embed && n_inst > 0 && rng.chance(1, 2);
         let mut err_at: Option<usize> = None;
+        if embed && db().by_opcode.get(&((crate::gram::MAGIC & 0xffff) as u16)).is_none() {
+            // a module header where an instruction must start (concatenated modules): the magic number is
+            // not an instruction, so instruction j+1 cannot be parsed, whatever follows it
+            let j = rng.below(n_inst + 1);
+            let at = if j < n_inst { starts[j] } else { w.len() };
+            let hdr: Vec<u32> = match rng.below(6) {
+                0 => vec![crate::gram::MAGIC],
+                1 => vec![crate::gram::MAGIC, 0x0001_0500],
+                2 => gram::header(0x0001_0000, 0, 0),
+                3 => gram::header(0x0001_0600, rng.u32(), rng.u32()),
+                4 => {
+                    // a whole second module: header and the instructions generated so far
+                    let mut h = gram::header(0x0001_0500, 7, 5000);
+                    h.extend_from_slice(&w[5..]);
+                    h
+                }
+                _ => w[..5].to_vec(),
+            };
+            let keep_rest = rng.chance(1, 2);
+            let tail: Vec<u32> = if keep_rest { w[at..].to_vec() } else { vec![] };
+            w.truncate(at);
+            w.extend(hdr);
+            w.extend(tail);
+            err_at = Some(j + 1);
+            r.count("embedded_module_headers", 1);
+        }
         if inject {
             let j = rng.below(n_inst);
             err_at = Some(j + 1);
@@ -116,7 +268,7 @@ pub fn run(cfg: &Cfg, rep: &mut Report) {
             }
         }
         // optionally damage the header instead: initialize must still be the first (and only) callback
-        let header_damage = !inject && rng.chance(1, 5);
+        let header_damage = !inject && err_at.is_none() && rng.chance(1, 5);
         if header_damage {
             match rng.below(3) {
                 0 => w[0] = crate::gram::MAGIC.swap_bytes(),
@@ -139,73 +291,10 @@ pub fn run(cfg: &Cfg, rep: &mut Report) {
         if err_at.is_none() {
             full.push("finalize");
         }
-        let positions = full.len();
-        // k == positions means "never answer anything but continue"
-        for k in 0..=positions {
-            for act in [Act::Stop, Act::Error] {
-                if k == positions && act == Act::Error {
-                    continue;
-                }
-                let token = idx * 1000 + k as u64;
-                let mut c = Scripted { at: if k == positions { usize::MAX } else { k }, act, token, log: vec![], insts: vec![], header: None, calls: 0 };
-                let res = match catch(|| if via_words { rspirv::binary::parse_words(&w, &mut c) } else { rspirv::binary::parse_bytes(&bytes, &mut c) }) {
-                    Ok(x) => x,
-                    Err(p) => {
-                        r.violation(format!("C14:panic:{}", crate::util::panic_key(&p)), format!("parser panicked: {}", p.msg), rp());
-                        return;
-                    }
-                };
-                let fail = |r: &mut Report, rule: &str, msg: String| {
-                    r.violation(format!("C14:{}", rule), format!("{} [N={}, {} entry point, answer {:?} at callback #{}, parse error at instruction {:?} (0 = header)]\nlog: {:?}", msg, n_inst, if via_words { "parse_words" } else { "parse_bytes" }, act, k, err_at, c.log), rp());
-                };
-                let want_log: Vec<&str> = if k == positions { full.clone() } else { full[..=k].to_vec() };
-                if c.log != want_log {
-                    let rule = if c.log.len() > want_log.len() { "callback-after-end" } else if c.log.iter().filter(|s| *s == "finalize").count() > want_log.iter().filter(|s| **s == "finalize").count() { "finalize-unexpected" } else { "callback-order" };
-                    fail(r, rule, format!("callback log differs from the protocol prefix {:?}", want_log));
-                    return;
-                }
-                // delivered instructions equal the stream's, in order
-                for (i, got) in c.insts.iter().enumerate() {
-                    if want_dr[i].as_ref() != Some(got) {
-                        fail(r, "instruction-content", format!("instruction #{} delivered as {:?}, stream has {}", i + 1, got, insts[i].show()));
-                        return;
-                    }
-                }
-                if c.header.as_ref().map(|h| (h.bound, h.version)) != if want_log.len() >= 2 { Some((5000, 0x0001_0500)) } else { None } {
-                    fail(r, "header-content", format!("header delivered as {:?}", c.header));
-                    return;
-                }
-                // result
-                if k == positions {
-                    match (&res, err_at) {
-                        (Ok(()), None) => {}
-                        (Err(e), Some(_)) if !matches!(e, ParseState::ConsumerStopRequested | ParseState::ConsumerError(_) | ParseState::Complete) => {}
-                        (other, _) => {
-                            fail(r, "result-all-continue", format!("result {:?}", other.as_ref().err()));
-                            return;
-                        }
-                    }
-                } else {
-                    match (&res, act) {
-                        (Err(ParseState::ConsumerStopRequested), Act::Stop) => {}
-                        (Err(ParseState::ConsumerError(e)), Act::Error) => match e.downcast_ref::<Token>() {
-                            Some(t) if t.0 == token => {}
-                            other => {
-                                fail(r, "consumer-error-identity", format!("ConsumerError carries {:?}, the consumer answered token {}", other, token));
-                                return;
-                            }
-                        },
-                        (other, _) => {
-                            fail(r, "result-after-action", format!("result {:?}", other.as_ref().map_err(crate::rs::state_name)));
-                            return;
-                        }
-                    }
-                }
-                let pos_class = if k == 0 { "initialize" } else if k == 1 { "header" } else if k == positions { "never" } else if full[k] == "finalize" { "finalize" } else { "inst" };
-                r.nontrivial(format!("N{}:{}:{:?}:err{}:{}", n_inst, pos_class, act, if header_damage { "header" } else if err_at.is_some() { "inst" } else { "none" }, via_words));
-                r.evaluations += 1;
-            }
-        }
+        let ctx = format!("N={}, parse error at instruction {:?} (0 = header)", n_inst, err_at);
+        let all: Vec<usize> = (0..=full.len()).collect();
+        let key = format!("N{}:err{}", n_inst, if header_damage { "header" } else if err_at.is_some() { "inst" } else { "none" });
+        check_protocol(r, &rp, &w, &bytes, via_words, &full, err_at.is_some(), Some((&want_dr, &insts)), Some((5000, 0x0001_0500)), &all, idx, &ctx, &key);
         // the loader, being such a consumer, yields a module only for binaries parsed to the end
         match catch(|| if via_words { rspirv::dr::load_words(&w) } else { rspirv::dr::load_bytes(&bytes) }) {
             Err(p) => r.violation(format!("C14:panic:{}", crate::util::panic_key(&p)), format!("load_bytes panicked: {}", p.msg), rp()),
@@ -213,7 +302,67 @@ pub fn run(cfg: &Cfg, rep: &mut Report) {
             _ => {}
         }
         if idx < 2 {
-            r.sample(Json::obj().set("N", n_inst).set("parse_error_at", err_at.map(|x| x as i64).unwrap_or(-1)).set("positions_tried", positions + 1).set("protocol", format!("{:?}", full)));
+            r.sample(Json::obj().set("N", n_inst).set("parse_error_at", err_at.map(|x| x as i64).unwrap_or(-1)).set("positions_tried", full.len() + 1).set("protocol", format!("{:?}", full)));
         }
+    });
+    // arbitrary mutated modules: where the first malformed instruction is (if any) is decided by the reference
+    // parser of C03, the protocol demanded around it is the same
+    let n2 = cfg.n(4_000, 3_000_000);
+    run_stage(cfg, rep, "mutated", n2, |idx, rng, r| {
+        use crate::mutate::{self, Base};
+        use crate::refparse::{refparse, RefOutcome};
+        let small = rng.chance(1, 2);
+        let b = crate::mon::c03::gen_base(rng, vec![], small);
+        let m = (idx % (mutate::N_MUTATORS as u64 + 1)) as usize;
+        let (bytes, label) = if m == mutate::N_MUTATORS { (words_to_bytes(&b.words), "none".to_string()) } else { mutate::mutate(rng, &Base { words: &b.words, starts: &b.starts, insts: &b.insts }, m) };
+        let reference = refparse(&bytes);
+        if !reference.variadic_params.is_empty() {
+            r.count("mutated_not_judged_variadic_parameter", 1);
+            return;
+        }
+        let (n_delivered, err, hdr) = match &reference.outcome {
+            RefOutcome::Unspecified { .. } => {
+                r.count("mutated_not_judged_unspecified", 1);
+                return;
+            }
+            RefOutcome::Accept if reference.trailing_bytes => {
+                r.count("mutated_not_judged_trailing_bytes", 1);
+                return;
+            }
+            RefOutcome::Accept => (reference.insts.len(), false, true),
+            RefOutcome::Reject(rj) => (rj.index.saturating_sub(1), true, rj.index > 0),
+        };
+        let mut full: Vec<&str> = if hdr { vec!["initialize", "header"] } else { vec!["initialize"] };
+        full.extend(std::iter::repeat("inst").take(n_delivered));
+        if !err {
+            full.push("finalize");
+        }
+        let aligned = bytes.len() % 4 == 0;
+        let via_words = aligned && rng.chance(1, 2);
+        let w: Vec<u32> = if aligned { bytes.chunks(4).map(|c| u32::from_le_bytes([c[0], c[1], c[2], c[3]])).collect() } else { vec![] };
+        let want_dr: Vec<Option<dr::Instruction>> = reference.insts.iter().map(|i| i.to_dr()).collect();
+        let mut ks: Vec<usize> = if full.len() <= 14 {
+            (0..=full.len()).collect()
+        } else {
+            let mut v = vec![0, 1, 2, full.len() - 3, full.len() - 2, full.len() - 1, full.len()];
+            for _ in 0..5 {
+                v.push(rng.below(full.len()));
+            }
+            v
+        };
+        ks.sort();
+        ks.dedup();
+        let rp = || crate::util::replay_ref(cfg, "mutated", idx).set("binary", hex_bytes(&bytes)).set("mutation", label.clone());
+        let ctx = format!("mutation: {}; reference: {:?}", label, reference.outcome);
+        let key = format!("mut{}:{}", m, match &reference.outcome { RefOutcome::Accept => "accept".to_string(), RefOutcome::Reject(rj) => format!("reject:{:?}", rj.classes.first()), _ => String::new() });
+        let want_header = reference.header.map(|(_v, _g, bound)| bound);
+        check_protocol(r, &rp, &w, &bytes, via_words, &full, err, Some((&want_dr, &reference.insts)), None, &ks, idx, &ctx, &key);
+        let _ = want_header;
+        match catch(|| rspirv::dr::load_bytes(&bytes)) {
+            Err(p) => r.violation(format!("C14:panic:{}", crate::util::panic_key(&p)), format!("load_bytes panicked: {}", p.msg), rp()),
+            Ok(Ok(_)) if err => r.violation("C14:loader-module-after-parse-error".to_string(), format!("load_bytes returned a module although the binary cannot be parsed to the end ({})", ctx), rp()),
+            _ => {}
+        }
+        r.count("mutated_binaries_judged", 1);
     });
 }
